@@ -34,9 +34,11 @@ const (
 	KTick
 	KChurn     // N create+delete pairs through member Via: the zero log grows by 2N entries (a member that is away falls behind the retained log)
 	KDeleteAll // every acknowledged dataset is deleted through member Via: the catalogue becomes empty
+	KJoinLate  // the last member, left out when the cluster was formed (Late), joins now: allocators extend under-replicated partitions
+	KRemove    // member A (not the bootstrap node) is removed from the cluster through member Via and its process stopped: allocators take it out of the partitions they lead
 )
 
-var kNames = []string{"create", "delete", "restart", "down", "up", "snapshot", "isolate", "heal", "tick", "churn", "delete-all"}
+var kNames = []string{"create", "delete", "restart", "down", "up", "snapshot", "isolate", "heal", "tick", "churn", "delete-all", "join-late", "remove-member"}
 
 type CStep struct {
 	K   int `json:"k"`
@@ -50,8 +52,10 @@ type CStep struct {
 }
 
 type CCase struct {
-	Members int     `json:"members"`
-	Steps   []CStep `json:"steps"`
+	Members int `json:"members"`
+	// Late: the last member does not join while the cluster is formed but at a join-late step of the history
+	Late  bool    `json:"late,omitempty"`
+	Steps []CStep `json:"steps"`
 }
 
 func (c CCase) String() string {
@@ -64,8 +68,9 @@ func (c CCase) String() string {
 
 func genCCase(t *rapid.T) CCase {
 	c := CCase{Members: rapid.SampledFrom([]int{1, 2, 3, 3, 3}).Draw(t, "members")}
+	c.Late = c.Members >= 2 && rapid.IntRange(0, 2).Draw(t, "late") == 0
 	step := rapid.Custom(func(t *rapid.T) CStep {
-		k := rapid.SampledFrom([]int{KCreate, KCreate, KCreate, KDelete, KDelete, KRestart, KDown, KUp, KUp, KSnapshot, KSnapshot, KIsolate, KHeal, KTick}).Draw(t, "k")
+		k := rapid.SampledFrom([]int{KCreate, KCreate, KCreate, KDelete, KDelete, KRestart, KDown, KUp, KUp, KSnapshot, KSnapshot, KIsolate, KHeal, KTick, KJoinLate, KRemove}).Draw(t, "k")
 		s := CStep{K: k, A: rapid.IntRange(0, c.Members-1).Draw(t, "a"), Via: rapid.IntRange(0, c.Members-1).Draw(t, "via")}
 		switch k {
 		case KCreate:
@@ -202,35 +207,69 @@ func runCluster(c CCase, o *pbt.Obs) *pbt.Failure {
 		o.Inconclusive("bootstrap-node-did-not-elect-itself")
 		return nil
 	}
-	for i := 1; i < c.Members; i++ {
-		if err := cl.Start(i, false); err != nil {
-			return pbt.Failf("C14:start-fails", "node %d: %v", i, err)
-		}
-		if err := cl.WhileTicking(3000, func() error { return cl.Join(i, 0) }); err != nil {
-			o.Inconclusive("join-did-not-complete")
-			return nil
-		}
-		cl.Nodes[i].Joined = true
-		settled := false
-		for r := 0; r < 1500 && !settled; r++ {
-			settled = true
-			for k := 0; k <= i; k++ {
+	// out: not (or no longer) a member - the late joiner before it joins, removed members for good
+	out := map[int]bool{}
+	removed := map[int]bool{}
+	down := map[int]bool{}
+	// confSettled: every member that is in lists (present) / does not list (absent) node i in its applied zero-group configuration
+	confSettled := func(i int, present bool) bool {
+		for r := 0; r < 1500; r++ {
+			ok := true
+			for k := 0; k < c.Members; k++ {
+				if out[k] || (k == i && !present) {
+					continue
+				}
+				if down[k] {
+					continue
+				}
+				nodes := cl.Nodes[k].Zero.VerifConfNodes()
+				if nodes == nil {
+					// no membership change applied by this incarnation yet: what its store gives at the applied index
+					nodes = cl.Nodes[k].Mon.MembersAt(cl.Nodes[k].Zero.VerifStatus().Applied)
+				}
 				has := false
-				for _, id := range cl.Nodes[k].Zero.VerifConfNodes() {
+				for _, id := range nodes {
 					if id == cl.Nodes[i].Id {
 						has = true
 					}
 				}
-				if !has {
-					settled = false
+				if has != present {
+					ok = false
 				}
+			}
+			if ok {
+				return true
 			}
 			cl.Tick(1)
 			time.Sleep(100 * time.Microsecond)
 		}
-		if !settled {
+		return false
+	}
+	join := func(i int) (bool, *pbt.Failure) {
+		if err := cl.Start(i, false); err != nil {
+			return false, pbt.Failf("C14:start-fails", "node %d: %v", i, err)
+		}
+		if err := cl.WhileTicking(3000, func() error { return cl.Join(i, 0) }); err != nil {
+			o.Inconclusive("join-did-not-complete")
+			return false, nil
+		}
+		cl.Nodes[i].Joined = true
+		delete(out, i)
+		if !confSettled(i, true) {
 			o.Inconclusive("join-did-not-settle")
-			return nil
+			return false, nil
+		}
+		return true, nil
+	}
+	for i := 1; i < c.Members; i++ {
+		out[i] = true // not a member yet
+	}
+	for i := 1; i < c.Members; i++ {
+		if c.Late && i == c.Members-1 {
+			continue
+		}
+		if ok, f := join(i); !ok {
+			return f
 		}
 	}
 	if f := fatal("cluster formation"); f != nil {
@@ -240,14 +279,16 @@ func runCluster(c CCase, o *pbt.Obs) *pbt.Failure {
 	var acked []*ackedDataset
 	unackedCreates := 0
 	isolated := map[int]bool{}
-	down := map[int]bool{}
 	liveVia := func(want int) int {
 		for k := 0; k < c.Members; k++ {
-			if cand := (want + k) % c.Members; !down[cand] {
+			if cand := (want + k) % c.Members; !down[cand] && !out[cand] {
 				return cand
 			}
 		}
 		return -1
+	}
+	calm := func() bool { // every member is up and connected
+		return len(down) == 0 && len(isolated) == 0
 	}
 	restartedAfterSnapshot, caughtUpBySnapshot, deletesAcked := 0, 0, 0
 	start := func(i int) *pbt.Failure {
@@ -259,7 +300,45 @@ func runCluster(c CCase, o *pbt.Obs) *pbt.Failure {
 	for si, s := range c.Steps {
 		where := fmt.Sprintf("step %d %s(a=%d via=%d)", si, kNames[s.K], s.A, s.Via)
 		a := s.A % c.Members
+		if out[a] && (s.K == KRestart || s.K == KDown || s.K == KUp || s.K == KSnapshot || s.K == KIsolate) {
+			continue
+		}
 		switch s.K {
+		case KJoinLate:
+			late := c.Members - 1
+			if !c.Late || !out[late] || removed[late] || !calm() {
+				continue
+			}
+			if ok, f := join(late); !ok {
+				return f
+			}
+			o.Label("member-joined-while-datasets-exist")
+		case KRemove:
+			if a == 0 || out[a] || !calm() {
+				continue
+			}
+			via := liveVia(s.Via)
+			if via == a {
+				via = 0
+			}
+			if err := cl.WhileTicking(3000, func() error { return cl.Nodes[via].NM.RemoveNode(cl.Nodes[a].Id) }); err != nil {
+				o.Inconclusive("removal-did-not-complete")
+				return stopCase
+			}
+			if !confSettled(a, false) {
+				o.Inconclusive("removal-did-not-settle")
+				return stopCase
+			}
+			// the removed node's process is stopped for good
+			if !cl.Kill(a) {
+				if b := blockedControlPlane(); len(b) > 0 {
+					return pbt.Failf("C14:catalogue-apply-blocked", "%s: a ready loop of the removed node %d did not exit within 2 s after the node was killed; it is parked in %v", where, a, b)
+				}
+				o.Inconclusive("killed-node-did-not-stop")
+				return stopCase
+			}
+			out[a], removed[a] = true, true
+			o.Label("member-removed")
 		case KCreate:
 			via := liveVia(s.Via)
 			if via < 0 {
@@ -399,12 +478,16 @@ func runCluster(c CCase, o *pbt.Obs) *pbt.Failure {
 	// ---- quiescence: heal, bring every member up, let everything commit and apply ----
 	cl.Net.HealAll()
 	for i := 0; i < c.Members; i++ {
-		if down[i] {
-			before, _ := cl.Nodes[i].Mon.Snapshot()
+		if down[i] && !out[i] {
 			if f := start(i); f != nil {
 				return f
 			}
-			_ = before
+		}
+	}
+	var act []int // the members at the end
+	for i := 0; i < c.Members; i++ {
+		if !out[i] {
+			act = append(act, i)
 		}
 	}
 	if !cl.ElectZero(1500) {
@@ -420,9 +503,9 @@ func runCluster(c CCase, o *pbt.Obs) *pbt.Failure {
 		time.Sleep(150 * time.Microsecond)
 		renders = renders[:0]
 		same, applying := true, false
-		for i := 0; i < c.Members; i++ {
+		for k, i := range act {
 			renders = append(renders, cl.Render(i))
-			if renders[i] != renders[0] {
+			if renders[k] != renders[0] {
 				same = false
 			}
 			if st := cl.Nodes[i].Zero.VerifStatus(); st.Applied != st.Commit {
@@ -432,7 +515,7 @@ func runCluster(c CCase, o *pbt.Obs) *pbt.Failure {
 		lead := cl.ZeroLeader()
 		if lead >= 0 {
 			lst := cl.Nodes[lead].Zero.VerifStatus()
-			for i := 0; i < c.Members; i++ {
+			for _, i := range act {
 				if st := cl.Nodes[i].Zero.VerifStatus(); st.Commit != lst.Commit {
 					applying = true
 				}
@@ -449,7 +532,7 @@ func runCluster(c CCase, o *pbt.Obs) *pbt.Failure {
 	if f := fatal("after healing"); f != nil {
 		return f
 	}
-	for i := 0; i < c.Members; i++ {
+	for _, i := range act {
 		if sn, err := cl.Nodes[i].Mon.Snapshot(); err == nil && sn.Metadata.Index > 0 {
 			for _, k := range cl.Nodes[i].Mon.KindsCopy() {
 				if k == sim.WriteSnapshot {
@@ -468,7 +551,7 @@ func runCluster(c CCase, o *pbt.Obs) *pbt.Failure {
 			return pbt.Failf("C14:catalogue-apply-blocked", "the members' catalogues did not converge within 8 s after healing and a zero group's ready loop is parked inside the control plane (unchanged a second later): %v; history: %s", d2, c.String())
 		}
 		applying := false
-		for i := 0; i < c.Members; i++ {
+		for _, i := range act {
 			if st := cl.Nodes[i].Zero.VerifStatus(); st.Applied != st.Commit {
 				applying = true
 			}
@@ -477,7 +560,7 @@ func runCluster(c CCase, o *pbt.Obs) *pbt.Failure {
 		allCommitted := lead >= 0
 		if lead >= 0 {
 			lst := cl.Nodes[lead].Zero.VerifStatus()
-			for i := 0; i < c.Members; i++ {
+			for _, i := range act {
 				if st := cl.Nodes[i].Zero.VerifStatus(); st.Commit != lst.Commit || st.Applied != lst.Applied {
 					allCommitted = false
 				}
@@ -486,8 +569,8 @@ func runCluster(c CCase, o *pbt.Obs) *pbt.Failure {
 		if !applying && allCommitted {
 			// every member has applied the same log position and still they list different catalogues
 			var v []string
-			for i, r := range renders {
-				v = append(v, fmt.Sprintf("node%d{%s}", i, strings.ReplaceAll(r, "\n", " ; ")))
+			for k, r := range renders {
+				v = append(v, fmt.Sprintf("node%d{%s}", act[k], strings.ReplaceAll(r, "\n", " ; ")))
 			}
 			return pbt.Failf("C14:catalogue-differs-between-members", "all members have applied the zero group's log up to the same index and list different catalogues: %s; history: %s", strings.Join(v, " | "), c.String())
 		}
@@ -527,7 +610,10 @@ func runCluster(c CCase, o *pbt.Obs) *pbt.Failure {
 	var serveDiff string
 	for try := 0; try < 400; try++ {
 		serveDiff = ""
-		for i := 0; i < c.Members && serveDiff == ""; i++ {
+		for _, i := range act {
+			if serveDiff != "" {
+				break
+			}
 			n := cl.Nodes[i]
 			want := map[uuid.UUID]bool{}
 			ds, _ := n.DM.List(nil, false)
@@ -581,7 +667,7 @@ func runCluster(c CCase, o *pbt.Obs) *pbt.Failure {
 func TestCatalogueOnCluster(t *testing.T) {
 	pbt.Run(t, pbt.Prop[CCase]{
 		ID: "C14", Name: "TestCatalogueOnCluster",
-		Rule:    "rapid-generated histories on 1-3 simulated nodes wired like server.go (real Conn, RaftTransport, zero RaftGroup over a Badger log store, shared group, NodesManager, Allocator, DatasetManager as the 'datasets' consumer; in-memory raft message shims; node 0 bootstraps, the others join through it): create (1-3 partitions, replication 1-3) and delete through the DatasetManager API of any live member, kill+restart of a member, members that stay down for a while, zero-group snapshot+compaction on any member, isolation of one member (it lags and may have to catch up through a snapshot), logical ticks; then heal, start everybody, wait (bounded) until every member has applied the same zero-log position; oracle: all members list the same catalogue (ids, dimension, space, partition ids in order, replica lists), every acknowledged and not deleted dataset is listed as acknowledged, no dataset whose deletion was acknowledged is listed, no more unknown datasets than unacknowledged creations, every node runs exactly the raft groups of the partitions of listed datasets that name it, no log.Fatal in a ready loop, a killed node's ready loops exit; members that applied the same index but list different catalogues, or a ready loop parked inside the control plane, are violations, any other non-convergence is counted inconclusive; non-trivial = >=2 members, an acknowledged delete, and a member that restarted after a compaction or installed a received snapshot; distinct = distinct case JSON",
+		Rule:    "rapid-generated histories on 1-3 simulated nodes wired like server.go (real Conn, RaftTransport, zero RaftGroup over a Badger log store, shared group, NodesManager, Allocator, DatasetManager as the 'datasets' consumer; in-memory raft message shims; node 0 bootstraps, the others join through it): create (1-3 partitions, replication 1-3) and delete through the DatasetManager API of any live member, kill+restart of a member, members that stay down for a while, zero-group snapshot+compaction on any member, isolation of one member (it lags and may have to catch up through a snapshot), a member that joins only during the history and members that are removed from the cluster (so that the allocators propose replica-set changes, committed by the real zero groups), logical ticks; then heal, start everybody, wait (bounded) until every member has applied the same zero-log position; oracle: all members list the same catalogue (ids, dimension, space, partition ids in order, replica lists), every acknowledged and not deleted dataset is listed as acknowledged, no dataset whose deletion was acknowledged is listed, no more unknown datasets than unacknowledged creations, every node runs exactly the raft groups of the partitions of listed datasets that name it, no log.Fatal in a ready loop, a killed node's ready loops exit; members that applied the same index but list different catalogues, or a ready loop parked inside the control plane, are violations, any other non-convergence is counted inconclusive; non-trivial = >=2 members, an acknowledged delete, and a member that restarted after a compaction or installed a received snapshot; distinct = distinct case JSON",
 		Gen:     genCCase,
 		Check:   checkCluster,
 		Journal: true,
